@@ -138,7 +138,7 @@ func c18One(c *ctx, rn c18Run) {
 	tcpA, sniA, grpcA := fmt.Sprintf("127.0.0.1:%d", freePort()), fmt.Sprintf("127.0.0.1:%d", freePort()), fmt.Sprintf("127.0.0.1:%d", freePort())
 	addr := fmt.Sprintf("%s,%s;cs=cs1", httpA, httpsA)
 	dynA := fmt.Sprintf("127.0.0.1:%d", freePort()) // served by the tcp-dynamic listener (refresh 200ms)
-	mixPort := freePort() // an https+tcp+sni listener, its address written in the usual bare form ":port"
+	mixPort := freePort()                           // an https+tcp+sni listener, its address written in the usual bare form ":port"
 	if !rn.NoTCP {
 		addr += fmt.Sprintf(",%s;proto=tcp,%s;proto=tcp+sni,127.0.0.1:%d;proto=tcp-dynamic;refresh=200ms,:%d;proto=https+tcp+sni;cs=cs1", tcpA, sniA, freePort(), mixPort)
 	}
